@@ -189,7 +189,7 @@ func (e *env) genArgs(rt *rapid.T, specs []argSpec) []Arg {
 		case "value":
 			out[i] = Arg{Hex: hex.EncodeToString(refssz.Serialize(s.t, refssz.Random(rt, s.t, genOpts, label)))}
 		case "selvalue":
-			out[i] = Arg{U: rapid.Uint64Range(0, 40).Draw(rt, label+"_sel"), Hex: hex.EncodeToString(refssz.Serialize(s.t, refssz.Random(rt, s.t, genOpts, label)))}
+			out[i] = Arg{U: 1 + rapid.Uint64Range(0, 40).Draw(rt, label+"_sel"), Hex: hex.EncodeToString(refssz.Serialize(s.t, refssz.Random(rt, s.t, genOpts, label)))}
 		}
 	}
 	return out
@@ -218,7 +218,7 @@ func drawLen(rt *rapid.T, limit uint64, label string) int {
 		}
 		return int(hi)
 	default:
-		lo := uint64(2)
+		lo := uint64(3)
 		if hi < lo {
 			lo = hi
 		}
@@ -239,6 +239,80 @@ func genList(rt *rapid.T, t *refssz.Type, n int, label string) []any {
 // lists (balances, participation, inactivity scores) as long as the registry, as in every state a
 // transition can produce.
 func (e *env) genState(rt *rapid.T, consistent bool) any {
+	v := e.genStateRaw(rt, consistent)
+	// rapid's first cases are all-minimal draws (every element equal): three quarters of the states
+	// are post-processed so that neighbours of the same type differ, which is what makes a wrong
+	// position visible; the rest stay as drawn
+	if rapid.IntRange(0, 3).Draw(rt, "diversify") > 0 {
+		v = diversify(e.stateT, v, 0)
+	}
+	return v
+}
+
+// diversify returns v with adjacent list/vector elements and same-typed sibling fields made
+// pairwise different (a deterministic function of v).
+func diversify(t *refssz.Type, v any, depth int) any {
+	if depth > 3 {
+		return v
+	}
+	switch t.Kind {
+	case refssz.KContainer:
+		x := append([]any{}, v.([]any)...)
+		for i, f := range t.Fields {
+			x[i] = diversify(f.T, x[i], depth+1)
+		}
+		for j := 1; j < len(x); j++ {
+			for tries := 0; tries < 8; tries++ {
+				clash := false
+				for i := 0; i < j; i++ {
+					if sameType(t.Fields[i].T, t.Fields[j].T) && eqVal(t.Fields[j].T, x[i], x[j]) {
+						clash = true
+					}
+				}
+				if !clash {
+					break
+				}
+				x[j] = perturbN(t.Fields[j].T, x[j], tries)
+			}
+		}
+		return x
+	case refssz.KVector, refssz.KList:
+		x := append([]any{}, v.([]any)...)
+		if len(x) > 80 {
+			return x
+		}
+		for i := range x {
+			x[i] = diversify(t.Elem, x[i], depth+1)
+		}
+		for j := 1; j < len(x); j++ {
+			for tries := 0; tries < 8; tries++ {
+				if !eqVal(t.Elem, x[j], x[j-1]) && !(j == len(x)-1 && eqVal(t.Elem, x[j], x[0])) {
+					break
+				}
+				x[j] = perturbN(t.Elem, x[j], tries)
+			}
+		}
+		return x
+	}
+	return v
+}
+
+// perturbN changes a value a little, differently for different n.
+func perturbN(t *refssz.Type, v any, n int) any {
+	for i := 0; i <= n; i++ {
+		v = perturb(t, v)
+	}
+	if t.Kind == refssz.KUint && t.Bits <= 64 && t.Bits > 1 {
+		mask := ^uint64(0)
+		if t.Bits < 64 {
+			mask = (uint64(1) << uint(t.Bits)) - 1
+		}
+		return (v.(uint64) + uint64(2*n+1)) & mask
+	}
+	return v
+}
+
+func (e *env) genStateRaw(rt *rapid.T, consistent bool) any {
 	t := e.stateT
 	out := make([]any, len(t.Fields))
 	nVal := -1
